@@ -842,6 +842,101 @@ fn c04_case(ctx: &Ctx, case: u64, acc: &mut Acc) -> Verdict {
     Ok(())
 }
 
+/// Outside the deterministic envelope: a realistic configuration (suspicion timeout of 8 probe periods for
+/// 10..=14 members, probe_period 1.5 x rtt, one-way latency 0.2 x rtt so that a lost Ping or Ack cannot be
+/// absorbed by the indirect probe). Here the refutation has to reach the suspecting member through gossip, which
+/// only succeeds with high probability; single cases carry no verdict, the *rate* of cases in which a live member
+/// ends up declared Down does (see `c04_aggregate`).
+fn c04_realistic(ctx: &Ctx, case: u64, acc: &mut Acc) -> Verdict {
+    let per_cfg = 16u64;
+    let cfg_idx = case / per_cfg;
+    let drop_slot = case % per_cfg;
+    let mut r = Rng64::derive(ctx.seed, 0xC04B, cfg_idx);
+    let n = r.range(10, 14) as usize;
+    let p = R * 3 / 2;
+    let cfg = Cfg {
+        p,
+        r: R,
+        k: 3,
+        tx: *r.pick(&[4u8, 6, 10]),
+        s2d: 8 * p,
+        rda: 86_400_000_000,
+        mps: 1400,
+        notify_down: r.chance(1, 2),
+        pa: None,
+        pad: None,
+        pg: if r.chance(1, 2) { Some((p / 2, 2)) } else { None },
+    };
+    let lat = (R * 19 / 100, R / 5);
+    let renew = if r.chance(1, 2) { Renew::Bump } else { Renew::None };
+    let sim_seed = r.next();
+    let window = (2 * n as u64 + 1) * cfg.p;
+    let Some(mut reference) = formed(sim_seed, n, &cfg, renew, lat, acc)? else {
+        acc.inconclusive += 1;
+        return Ok(());
+    };
+    let base = reference.sim.sent;
+    let t0 = reference.sim.now;
+    let mut nop = |_: &Sim, _: usize, _: &CallRec| -> Result<(), V> { Ok(()) };
+    reference.sim.run_until(t0 + window, acc, &mut nop)?;
+    let in_window = reference.sim.sent - base;
+    let ref_quiet = reference.sim.nodes.iter().all(|x| x.notes.iter().all(|(_, n)| matches!(n, N::MemberUp(_) | N::Active)));
+    if in_window == 0 || !ref_quiet || reference.sim.s2d_timers > 0 {
+        acc.inconclusive += 1;
+        acc.tally("realistic_reference_not_quiet", 1);
+        return Ok(());
+    }
+    let mut fr = Rng64::derive(ctx.seed ^ 0xd40c, cfg_idx, drop_slot);
+    let slot = (in_window / per_cfg).max(1);
+    let d = (drop_slot * in_window / per_cfg + fr.below(slot)).min(in_window - 1);
+    let Some(mut f) = formed(sim_seed, n, &cfg, renew, lat, acc)? else {
+        acc.inconclusive += 1;
+        return Ok(());
+    };
+    f.sim.drop_index = Some(base + d);
+    f.sim.run_until(t0 + window + cfg.s2d + 6 * cfg.p, acc, &mut nop)?;
+    let Some((kind, _, _)) = f.sim.dropped.clone() else {
+        acc.inconclusive += 1;
+        return Ok(());
+    };
+    acc.tally("realistic_runs", 1);
+    if f.sim.s2d_timers > 0 {
+        acc.tally("realistic_runs_with_suspicion", 1);
+    }
+    let bad = f.sim.nodes.iter().any(|x| x.notes.iter().any(|(_, nn)| matches!(nn, N::MemberDown(_) | N::Defunct | N::Rejoin(_) | N::Idle)));
+    if bad {
+        acc.tally("realistic_runs_with_live_member_declared_down", 1);
+        acc.note(&format!("realistic regime: live member declared Down in case {case} (n={n}, dropped {kind} #{d})"));
+        acc.flag("realistic", case);
+        if crate::run::tracing() {
+            // replayed on its own, the single case is shown as the witness it is
+            return Err(V::new("C04/realistic-regime-false-down-rate", format!("n={n} tx={} suspicion timeout 8 periods: dropping {kind} #{d} of the window got a live member declared Down", cfg.tx)));
+        }
+    }
+    if f.sim.s2d_timers > 0 {
+        acc.nontrivial(fp(&("realistic", cfg_idx, d)));
+    }
+    Ok(())
+}
+
+/// Rate rule for the realistic regime. On the unchanged tree 0.6-0.7 % of these runs end with a live member
+/// declared Down (the rumour of the suspicion never reaches the suspect within 8 periods when
+/// max_transmissions is 4..10: inherent to SWIM's probabilistic dissemination, which is why single cases carry
+/// no verdict). A change that weakens the refutation path - suspicions or refutations not passed on, incarnation
+/// not bumped, timeouts too short - multiplies that rate; 3 % is more than 15 standard deviations above the
+/// unchanged rate at the smallest run size used.
+fn c04_aggregate(acc: &Acc) -> Option<V> {
+    let runs = acc.tallies.get("realistic_runs").copied().unwrap_or(0);
+    let bad = acc.tallies.get("realistic_runs_with_live_member_declared_down").copied().unwrap_or(0);
+    if runs >= 1_000 && bad * 100 > runs * 3 {
+        return Some(V::new(
+            "C04/realistic-regime-false-down-rate",
+            format!("outside the deterministic envelope (10..=14 members, suspicion timeout 8 periods, max_transmissions 4..10) a single lost datagram got a live member declared Down in {bad} of {runs} runs ({:.1} %); the unchanged tree stays below 1 %", bad as f64 * 100.0 / runs as f64),
+        ));
+    }
+    None
+}
+
 // ------------------------------------------------------------------ C05
 
 fn c05_case(ctx: &Ctx, case: u64, acc: &mut Acc) -> Verdict {
@@ -1126,6 +1221,7 @@ pub fn c02() -> Check {
             Workload { name: "feedfit", f: c02_feedfit, quick: 1_200, thorough: 40_000, flav: Flav::Checked },
         ],
         exhaustive: false,
+        aggregate: None,
     }
 }
 
@@ -1142,6 +1238,7 @@ pub fn c03() -> Check {
             Workload { name: "staged", f: c03_staged, quick: 1_600, thorough: 60_000, flav: Flav::Checked },
         ],
         exhaustive: false,
+        aggregate: None,
     }
 }
 
@@ -1152,8 +1249,12 @@ pub fn c04() -> Check {
         rule: "inside the deterministic envelope (suspect_to_down_after >= (2n+1)P, max_transmissions >= max(10,2n^2), P = 3R, latency < R/4 or < 0.9R so that indirect-probe relays flow, remove_down_after far away) a formed run is rebuilt per fault and exactly one datagram of a window covering more than one full rotation of every member is dropped (32 slots per configuration, seeded offset inside the slot), n in 2..=6 quick / 2..=11 thorough, notify_down_members on/off, renewable or not. Oracle: no MemberDown/Defunct/Rejoin/Idle anywhere, no TurnUndead datagram at all, identities unchanged, everyone lists everyone as Alive again within 4n+2 periods. Non-trivial: a suspicion was raised or extra indirect probes ran. Distinct by (configuration, dropped index, kind).",
         assumptions: &["the envelope makes SWIM's refutation race deterministic; outside it the property is probabilistic and carries no verdict"],
         required: &["single_loss_runs", "runs_with_suspicion_raised_and_refuted", "dropped/Ping", "dropped/Ack", "dropped/Feed", "dropped/Gossip"],
-        workloads: vec![Workload { name: "drop", f: c04_case, quick: 3_200, thorough: 320_000, flav: Flav::Checked }],
+        workloads: vec![
+            Workload { name: "drop", f: c04_case, quick: 3_200, thorough: 320_000, flav: Flav::Checked },
+            Workload { name: "realistic", f: c04_realistic, quick: 3_200, thorough: 160_000, flav: Flav::Checked },
+        ],
         exhaustive: false,
+        aggregate: Some(c04_aggregate),
     }
 }
 
@@ -1169,5 +1270,6 @@ pub fn c05() -> Check {
             Workload { name: "repartition", f: c05_repartition, quick: 400, thorough: 20_000, flav: Flav::Checked },
         ],
         exhaustive: false,
+        aggregate: None,
     }
 }
